@@ -187,7 +187,7 @@ func C01(c *Ctx) {
 		}
 		return inScope[fn]
 	}
-	R5RangeMut(c, sel, 8)
+	R5RangeMut(c, sel, 4)
 	R3LockPair(c, func(fn, lock string) bool { return sel(fn) }, 6)
 }
 
@@ -320,7 +320,7 @@ func C09(c *Ctx) {
 	R9UnlinkTarget(c)
 	R5RangeMut(c, func(fn string) bool {
 		return strings.Contains(fn, "UnlinkFromAll") || strings.Contains(fn, "LinkRemove") || strings.Contains(fn, "TaskDispatch") || strings.Contains(fn, "Died")
-	}, 3)
+	}, 1)
 	R1AgentsAppendOnly(c)
 }
 
